@@ -473,6 +473,8 @@ def b_prim(rnd):
                        {"type": "array", "items": {"type": "array", "items": {"type": ["integer", "null"]}}}, {"type": "object", "additionalProperties": {"type": ["string", "null"]}},
                        # open string with known values whose Rust identifiers collide
                        {"anyOf": [{"type": "string"}, {"type": "string", "enum": ["gpt-4", "gpt_4", "GPT-4", "other"]}]},
+                       # sets written as arrays: the element order of a document is kept
+                       {"type": "array", "uniqueItems": True, "items": {"type": "string"}}, {"type": "array", "uniqueItems": True, "items": {"type": "integer"}},
                        # unions of const values, alone and next to an open variant
                        {"oneOf": [{"const": "up"}, {"const": "down"}]}, {"oneOf": [{"const": "on"}, {"const": "off"}, {"type": "integer"}]},
                        {"anyOf": [{"const": "low", "description": "little"}, {"const": "high"}, {"type": "boolean"}]}])
@@ -546,6 +548,16 @@ def b_components(rnd):
                         "discriminator": {"propertyName": "petType", "mapping": {"cat": R_("Kitty"), "kitten": R_("Kitty"), "dog": R_("Doggo"), "puppy": R_("Doggo")}}}
         root_props["pet"] = {"$ref": R_("Pet")}
         root_props["pets"] = {"type": "array", "items": {"$ref": R_("Pet")}}
+    if rnd.random() < 0.6:
+        # two inline unions over the same references, one of them with a further inline variant
+        R2 = lambda t: {"$ref": f"#/components/schemas/{t}"}
+        comps["Meow"] = {"type": "object", "required": ["meow"], "properties": {"meow": {"type": "integer"}}, "additionalProperties": False}
+        comps["Woof"] = {"type": "object", "required": ["woof"], "properties": {"woof": {"type": "integer"}}, "additionalProperties": False}
+        first, second = ("buddy", "guest") if rnd.random() < 0.5 else ("guest", "buddy")
+        # (no array variant: a sequence would be read positionally into the first struct, the recorded struct-accepts-array class)
+        extra = rnd.choice([{"type": "string"}, {"type": "boolean"}])
+        root_props[first] = {"oneOf": [R2("Meow"), R2("Woof")]}
+        root_props[second] = {"oneOf": [R2("Meow"), R2("Woof"), extra]}
     comps["Root"] = {"type": "object", "properties": root_props}
     return comps
 
@@ -625,6 +637,9 @@ def b_instance(rnd, s, comps, depth=0):
         return rnd.choice([0, 7, -3])
     if t == "boolean":
         return rnd.choice([True, False])
+    if t == "array" and s.get("uniqueItems"):
+        pool = ["zeta", "alpha", "mid", "Beta", ""] if s["items"].get("type") == "string" else [30, 10, 20, -5, 0]
+        return rnd.sample(pool, rnd.randint(0, 4))
     if t == "array":
         return [b_instance(rnd, s["items"], comps, depth + 1) for _ in range(rnd.randint(0, 2))]
     return None
